@@ -435,7 +435,7 @@ func c1profile6() []*c1pkg {
 // right-hand side, stores left to right afterwards): target kinds x assignment operators x right-hand sides, and all
 // pairs of target kinds in tuple assignments.
 func c1profile8() []*c1pkg {
-	decls := "import \"fmt\"\n\ntype S struct {\n\tn int\n\ta []int\n}\n\nfunc (s *S) Plus(k int) int {\n\treturn s.n*100 + k\n}\n\nvar cnt int\nvar gs []int\nvar gm map[int]int\nvar objs []*S\n\nfunc next() int {\n\tcnt++\n\treturn cnt\n}\n\nfunc obj() *S {\n\treturn objs[next()%4]\n}\n\nfunc sl() []int {\n\tnext()\n\treturn gs\n}\n\nfunc mp() map[int]int {\n\tnext()\n\treturn gm\n}\n\nfunc reset() {\n\tcnt = 0\n\tgs = []int{10, 20, 30, 40, 50, 60, 70, 80}\n\tgm = map[int]int{1: 100, 2: 200, 3: 300}\n\tobjs = []*S{&S{n: 1, a: []int{1, 2, 3, 4}}, &S{n: 2, a: []int{5, 6, 7, 8}}, &S{n: 3, a: []int{9, 10, 11, 12}}, &S{n: 4, a: []int{13, 14, 15, 16}}}\n}\n\nfunc dump(x int, y int) {\n\tfmt.Println(cnt, x, y, gs, len(gm))\n\tfor k := 1; k <= 14; k++ {\n\t\tif v, ok := gm[k]; ok {\n\t\t\tfmt.Println(k, v)\n\t\t}\n\t}\n\tfor _, o := range objs {\n\t\tfmt.Println(o.n, o.a)\n\t}\n}\n\n"
+	decls := "import \"fmt\"\n\ntype S struct {\n\tn int\n\ta []int\n}\n\nfunc (s *S) Plus(k int) int {\n\treturn s.n*100 + k\n}\n\nvar cnt int\nvar gs []int\nvar gm map[int]int\nvar objs []*S\n\nfunc next() int {\n\tcnt++\n\treturn cnt\n}\n\nfunc obj() *S {\n\treturn objs[next()%4]\n}\n\nfunc sl() []int {\n\tnext()\n\treturn gs\n}\n\nfunc mp() map[int]int {\n\tnext()\n\treturn gm\n}\n\nfunc two() (int, int) {\n\treturn next(), next() * 10\n}\n\nfunc three() (int, int, int) {\n\treturn next(), next() * 10, next() * 100\n}\n\nfunc reset() {\n\tcnt = 0\n\tgs = []int{10, 20, 30, 40, 50, 60, 70, 80}\n\tgm = map[int]int{1: 100, 2: 200, 3: 300}\n\tobjs = []*S{&S{n: 1, a: []int{1, 2, 3, 4}}, &S{n: 2, a: []int{5, 6, 7, 8}}, &S{n: 3, a: []int{9, 10, 11, 12}}, &S{n: 4, a: []int{13, 14, 15, 16}}}\n}\n\nfunc dump(x int, y int) {\n\tfmt.Println(cnt, x, y, gs, len(gm))\n\tfor k := 1; k <= 14; k++ {\n\t\tif v, ok := gm[k]; ok {\n\t\t\tfmt.Println(k, v)\n\t\t}\n\t}\n\tfor _, o := range objs {\n\t\tfmt.Println(o.n, o.a)\n\t}\n}\n\n"
 	targets := []string{"gs[next()%8]", "sl()[next()%8]", "gm[next()]", "mp()[next()]", "obj().n", "obj().a[next()%4]", "objs[next()%4].n", "x", "gs[next()%8+x]", "objs[x].a[next()%4]"}
 	rhs := []string{"next()", "next() * next()", "obj().n + next()", "7", "obj().Plus(next())", "x + next()", "gs[next()%8] + gm[next()%3+1]"}
 	ops := []string{"=", "+=", "-=", "*="}
@@ -475,7 +475,41 @@ func c1profile8() []*c1pkg {
 			}
 		}
 	}
+	// results of one call spread over the targets, blank targets in every position
+	for _, ta := range targets {
+		for _, tb := range targets[:8] {
+			tb2 := tb
+			if tb == "x" {
+				tb2 = "y"
+			}
+			for _, stmt := range []string{
+				ta + ", " + tb2 + " = two()",
+				ta + ", _ = two()",
+				"_, " + ta + " = two()",
+				ta + ", _, " + tb2 + " = three()",
+				"_, " + ta + ", " + tb2 + " = three()",
+				ta + ", " + tb2 + ", _ = three()",
+				ta + ", _ = next(), next()",
+				"_, " + ta + ", _ = next(), next(), obj().n",
+			} {
+				if tb != targets[0] && !strings.Contains(stmt, tb2) {
+					continue // a statement without the second target: once is enough
+				}
+				add(stmt, stmt)
+			}
+		}
+	}
 	// method calls: receiver, then arguments left to right; nested
+	for _, stmt := range []string{
+		"y = obj().Plus(obj().Plus(next()))",
+		"y = obj().Plus(obj().Plus(obj().Plus(next())))",
+		"y = obj().Plus(obj().Plus(next()) + obj().Plus(next()))",
+		"y = obj().Plus(obj().n) + obj().Plus(obj().n)",
+		"gs[obj().Plus(next())%8] = obj().Plus(obj().Plus(next()))",
+		"obj().a[obj().Plus(next())%4], y = obj().Plus(obj().Plus(next())), obj().Plus(next())",
+	} {
+		add(stmt, stmt)
+	}
 	for _, recv := range []string{"obj()", "objs[next()%4]", "objs[x+1]"} {
 		for _, arg := range []string{"next()", "obj().n", "obj().Plus(next())", "gs[next()%8]"} {
 			stmt := "y = " + recv + ".Plus(" + arg + ")"
@@ -549,7 +583,7 @@ func c1goatFiles(pkg string, files map[string]string) map[string]string {
 
 func c01run(r *report.Run) {
 	thorough := r.Tier == "thorough"
-	r.Rule("profiles: (1) 8 lvalue kinds x 13 assignment operators x {int, byte, float64, string} x block contexts x right-hand-side kinds; (2) 58 statement forms x 8 block contexts x inner contexts (nesting depth 2); (3) element types x container shapes x operations, named types, nil comparisons, constants, conversions; (4) the C09 call configurations; (5) every bundled math/strings/strconv/errors/fmt function x boundary argument pools; (6) multi-package layouts (exported const/var/func/type/method, aliases, packages split over files, chain, diamond, interfaces across packages); (7) 8 run-time fault kinds x 5 positions; (8) order of evaluation: 10 target kinds x {=, +=, -=, *=, ++, --} x 7 right-hand sides, all pairs of target kinds x 4 value pairs in tuple assignments, 3 receivers x 4 arguments of method calls - every operand a call on a shared counter, so that the specification fixes the outcome; (2) control-flow and scoping corpora of C06/C08 at <=3 nodes, slice histories of C11, struct programs of C12, wide-frame programs (statement groups behind 120..300 locals); every program compiled and run by the Go toolchain and by goatlang from identical source text; non-trivial = every program (all distinct)")
+	r.Rule("profiles: (1) 8 lvalue kinds x 13 assignment operators x {int, byte, float64, string} x block contexts x right-hand-side kinds; (2) 58 statement forms x 8 block contexts x inner contexts (nesting depth 2); (3) element types x container shapes x operations, named types, nil comparisons, constants, conversions; (4) the C09 call configurations; (5) every bundled math/strings/strconv/errors/fmt function x boundary argument pools; (6) multi-package layouts (exported const/var/func/type/method, aliases, packages split over files, chain, diamond, interfaces across packages); (7) 8 run-time fault kinds x 5 positions; (8) order of evaluation: 10 target kinds x {=, +=, -=, *=, ++, --} x 7 right-hand sides, all pairs of target kinds x 4 value pairs in tuple assignments, the results of two- and three-valued calls spread over targets with blanks in every position, 3 receivers x 4 arguments of method calls - every operand a call on a shared counter, so that the specification fixes the outcome; (2) control-flow and scoping corpora of C06/C08 at <=3 nodes, slice histories of C11, struct programs of C12, wide-frame programs (statement groups behind 120..300 locals); every program compiled and run by the Go toolchain and by goatlang from identical source text; non-trivial = every program (all distinct)")
 	r.Assume("the supported subset is the grammar of DESIGN.md §4; int values are kept inside the int32 range so that Go's 64-bit int and goatlang's 32-bit int agree", "one Go toolchain (the installed one); printed multi-entry maps never occur in generated programs")
 	cache := oracle.OpenCache("c01")
 	defer cache.Save()
